@@ -86,13 +86,14 @@ Definition doc_pos_names (d : option ir) (a : arguments) (fd : stmt) : list str 
 Definition kwarg_documented (d : option ir) (a : arguments) (fd : stmt) : bool :=
   match kwarg_name a with Some k => mem_str k (doc_names d fd) | None => false end.
 
-(* the order parse.function produces: documented first (docstring order), then the undocumented in
-   signature order, then a documented ** parameter *)
+(* the order parse.function produces (after fix cc5b15e): the signature's positional and keyword-only
+   names in source order, then documented names that are no parameter at all (none inside the domain),
+   then a documented ** parameter *)
 Definition expected_names (d : option ir) (fd : stmt) : list str :=
   match fd_arguments fd with
   | Some a =>
-    doc_pos_names d a fd
-    ++ filter (fun k => negb (mem_str k (doc_pos_names d a fd))) (sig_pos_names a)
+    sig_pos_names a
+    ++ filter (fun k => negb (mem_str k (sig_pos_names a))) (doc_pos_names d a fd)
     ++ (if kwarg_documented d a fd then opt_list (kwarg_name a) else [])
   | None => []
   end.
@@ -104,13 +105,11 @@ Fixpoint is_prefix (p l : list str) : bool :=
   | _ :: _, [] => false
   end.
 
-(* THE exact condition for "names and relative order are those of the source": the documented
-   non-** names are a prefix of the signature's names, and a ** parameter, if any, is documented *)
+(* THE exact condition for "names and relative order are those of the source": a ** parameter, if any,
+   is documented (an undocumented one is dropped) *)
 Definition order_guard (d : option ir) (fd : stmt) : bool :=
   match fd_arguments fd with
-  | Some a =>
-    is_prefix (doc_pos_names d a fd) (sig_pos_names a)
-    && (match kwarg_name a with Some _ => kwarg_documented d a fd | None => true end)
+  | Some a => match kwarg_name a with Some _ => kwarg_documented d a fd | None => true end
   | None => false
   end.
 
@@ -237,12 +236,10 @@ Definition C07_statement : Prop :=
 Inductive c07_class : Type :=
 | K_kwargs_undocumented      (* an undocumented **kwargs parameter is dropped from the interface *)
 | K_kwargs_untyped           (* a documented ** parameter whose docstring entry has no type: AssertionError *)
-| K_doc_order                (* documented names are not a prefix of the signature: documented-first order *)
 | K_self_default             (* self/cls carries a default: positional defaults shift by one *)
 | K_param_named_kwargs       (* a positional / keyword-only parameter whose name ends in "kwargs" skips _infer_default *)
 | K_raises                   (* processing a default or the return statement raises *)
 | K_unmodelled               (* outside the modelled fragment *)
-| K_default_node_left        (* str-like type and a non-constant default: the raw ast node is left in the IR *)
 | K_str_default_altered      (* a str default loses its own quote characters / 'None' reads as None *)
 | K_type_dropped             (* type deleted because the default is back-tick quoted code and the type has no '[' *)
 | K_class_attr_order.        (* class level: attributes shared with __init__ come first, in class order *)
@@ -251,12 +248,10 @@ Definition c07_class_name (k : c07_class) : str :=
   match k with
   | K_kwargs_undocumented => L "kwargs-undocumented-dropped"
   | K_kwargs_untyped => L "kwargs-documented-untyped-asserts"
-  | K_doc_order => L "documented-not-a-prefix-of-signature"
   | K_self_default => L "self-with-default-shifts-defaults"
   | K_param_named_kwargs => L "non-star-parameter-named-kwargs"
   | K_raises => L "default-or-return-processing-raises"
   | K_unmodelled => L "unmodelled"
-  | K_default_node_left => L "str-typed-code-default-left-as-node"
   | K_str_default_altered => L "str-default-unquoted-or-read-as-none"
   | K_type_dropped => L "type-dropped-for-code-default"
   | K_class_attr_order => L "class-attributes-reorder-init-parameters"
@@ -296,8 +291,7 @@ Definition param_class (dp : option gparam) (sp : sigparam) : option c07_class :
       if str_default_altered s then Some K_str_default_altered
       else if type_dropped (Some (DV (VStr s))) (eff_typ dp sp) then Some K_type_dropped else None
     | None, Some e =>
-      if nq && negb (is_const e) then Some K_default_node_left
-      else if type_dropped (expected_sig_default e) (eff_typ dp sp) then Some K_type_dropped else None
+      if type_dropped (expected_sig_default e) (eff_typ dp sp) then Some K_type_dropped else None
     | _, _ => if type_dropped (final_default dp sp) (eff_typ dp sp) then Some K_type_dropped else None
     end
   end.
@@ -323,7 +317,6 @@ Definition finding_class_C07 (d : option ir) (fd : stmt) : option c07_class :=
              | None => false
              end)
     then Some K_kwargs_untyped
-    else if negb (is_prefix (doc_pos_names d a fd) (sig_pos_names a)) then Some K_doc_order
     else if Nat.ltb (List.length (pos_args a)) (List.length (ar_defaults a)) then Some K_self_default
     else if existsb kwargs_like (sig_pos_names a) then Some K_param_named_kwargs
     else match parse_default id_perm id_perm d fd with
